@@ -1032,7 +1032,7 @@ def shrink(trace, mode, v0):
   oi = v0.get("op_index", -1)
   if oi is not None and oi >= 0 and test(ops[:oi + 1]):
     ops = ops[:oi + 1]
-  ops = kernel.ddmin(ops, test, max_tests=600)
+  ops = kernel.ddmin(ops, test, max_tests=600 if len(ops) <= 90 else 120)
   t = dict(trace)
   t["ops"] = ops
   return t
